@@ -72,6 +72,8 @@ class Gen:
 
     def expr(self, d=2, jsx=True):
         r = self.r
+        if getattr(self, "nojsx", False):
+            jsx = False
         kinds = [(6, "ident"), (5, "lit"), (3, "call"), (3, "member"), (2, "array"), (2, "object"),
                  (2, "arrow"), (1, "fn"), (1, "cond"), (1, "this"), (1, "assign"), (1, "bin"), (1, "paren"), (1, "tpl")]
         if jsx and d > 0:
@@ -199,13 +201,16 @@ class Gen:
                         (2, "v-html"), (2, "v-text"), (2, "v-slots"), (1, "v-models"), (1, "v--x"), (1, "vvX"), (1, "vHtml")])
         self.f("dir:" + base)
         name = base
-        if base != "v-models" and r.chance(1, 4):
+        heavy = getattr(self, "dir_heavy", False)
+        if base != "v-models" and r.chance(2 if heavy else 1, 4):
             name += ":" + r.pick(["arg", "value", "title_m", "a_b_c"])
             self.f("dir:ns")
         if base != "v-models" and r.chance(1, 4):
             name += "".join("_" + r.pick(["a", "b", "trim", "lazy"]) for _ in range(1 + r.below(2)))
             self.f("dir:_mod")
         c = r.below(14)
+        if heavy and r.chance(2, 3):
+            c = 6                      # the array form
         target = r.pick(["val", "foo.bar", "y", "a[0]", "this.v", "props.m"])
         if base == "v-models":
             n = r.below(4)
@@ -277,7 +282,7 @@ class Gen:
         r = self.r
         k = r.wpick([(4, "plain"), (3, "bool"), (5, "expr"), (2, "ns"), (3, "spread"), (3, "class"), (2, "style"),
                      (3, "listener"), (1, "key"), (1, "ref"), (2, "on"), (1, "nativeOn"), (1, "type"),
-                     (5, "directive"), (1, "elemval"), (1, "only"), (1, "update")])
+                     (40 if getattr(self, "dir_heavy", False) else 5, "directive"), (1, "elemval"), (1, "only"), (1, "update")])
         self.f("attrk:" + k)
         if k == "plain":
             return r.pick(["id", "title", "data-x", "ariaLabel"]) + "=" + self.attr_string()
@@ -359,10 +364,11 @@ class Gen:
             self.f("single:" + k)
             if k == "ident":
                 return self.braced(r.pick(["a", "y", "slots", "foo", "undefined"]))
+            nj = getattr(self, "nojsx", False)
             if k == "call":
-                return self.braced(r.pick(["g()", "fn(a)", "foo.bar()", "h(<b/>)"]))
+                return self.braced(r.pick(["g()", "fn(a)", "foo.bar()", "h(1)" if nj else "h(<b/>)"]))
             if k == "fn":
-                return self.braced(r.pick(["() => 1", "function () { return 2 }", "(p) => <b>{p}</b>", "async () => 1"]))
+                return self.braced(r.pick(["() => 1", "function () { return 2 }", "(p) => [p, a]" if nj else "(p) => <b>{p}</b>", "async () => 1", "() => [a, g()]"]))
             if k == "obj":
                 return self.braced(r.pick(["{ default: () => 1 }", "{ foo, bar: () => 2 }", "{}", "{ ...slots }"]))
             if k == "text":
@@ -471,6 +477,20 @@ class Gen:
         if r.chance(1, 6):
             o["resolveType"] = True
         return json.dumps(o)
+
+
+def gen_site_cases(seed, n, start_id=0):
+    """one probe element per module: `const __site = <el>;` with JSX-free expression containers"""
+    out = []
+    for i in range(n):
+        g = Gen(Rng(seed * 900007 + i))
+        g.nojsx = True
+        g.dir_heavy = (i % 4 == 3)     # every fourth probe is mostly directives in all their spellings
+        el = g.elem(2) if g.r.chance(9, 10) else "<>" + g.children(2) + "</>"
+        src = PROLOGUE + "const __site = " + el + ";\n"
+        out.append({"id": start_id + i, "src": src, "syntax": "jsx", "options": g.options(),
+                    "stream": "site", "feat": sorted(g.feat)})
+    return out
 
 
 def gen_elem_cases(seed, n, start_id=0):
@@ -864,5 +884,6 @@ def gen_types_cases(seed, n, start_id=0):
 
 if __name__ == "__main__":
     seed = int(sys.argv[1]); n = int(sys.argv[2])
-    for c in (gen_types_cases(seed, n) if len(sys.argv) > 3 and sys.argv[3] == "types" else gen_elem_cases(seed, n)):
+    kind = sys.argv[3] if len(sys.argv) > 3 else "module"
+    for c in (gen_types_cases(seed, n) if kind == "types" else gen_site_cases(seed, n) if kind == "site" else gen_elem_cases(seed, n)):
         print(json.dumps(c))
